@@ -528,6 +528,18 @@ def ilip(L):
 _MUTATED = []     # inputs modified by f(x) / f.gradient(x) / f.derivative(x)(d), reported by probes()
 
 
+def _lip_record(f, sample, rng, desc, where):
+    if 'set_grad_lipschitz' in repr(desc):
+        return        # the generator itself planted an arbitrary constant on a leaf: nothing is claimed for such trees
+    try:
+        ok, det = lip_oracle(f, sample, rng, npairs=6, iters=4)
+    except Exception as e:
+        return
+    if not ok:
+        det.update({'object': desc, 'space': where})
+        _LIPBAD.append(det)
+
+
 def case_of(rng, S, node, vs):
     x, d = vec(rng, S), vec(rng, S)
     if rng.random() < 0.06:
@@ -549,6 +561,7 @@ def case_of(rng, S, node, vs):
     if S.flat(xe) != x or S.flat(de) != d:
         _MUTATED.append({'tree': node.desc, 'space': S.kind, 'x': x, 'x_after': S.flat(xe), 'd': d,
                          'd_after': S.flat(de)})
+    _lip_record(f, lambda: S.elem(vec(rng, S)), rng, node.desc, S.kind)
     if not all(math.isfinite(t) for t in [val, dv, val2, dv2] + g + g2 + g1b):
         return None
     term = ('(mkCase %s %s %s %s %s %s %s %s %s %s %s %s %s %s %s)'
@@ -600,6 +613,11 @@ def sepsum_cases(rng, tier, vs):
         f1 = gen_tree(rng, S1, rng.choice([0, 1, 2]), vs)
         f2 = gen_tree(rng, S2, rng.choice([0, 1, 2]), vs)
         f = odl.solvers.SeparableSum(f1.py, f2.py)
+        _lip_record(f, lambda: f.domain.element([S1.elem(vec(rng, S1)), S2.elem(vec(rng, S2))]), rng,
+                    ['SeparableSum', f1.desc, f2.desc], [S1.kind, S2.kind])
+        fr = odl.solvers.SeparableSum(f2.py, f1.py)       # the other order of the summands
+        _lip_record(fr, lambda: fr.domain.element([S2.elem(vec(rng, S2)), S1.elem(vec(rng, S1))]), rng,
+                    ['SeparableSum', f2.desc, f1.desc], [S2.kind, S1.kind])
         x1, x2, d1, d2 = vec(rng, S1), vec(rng, S2), vec(rng, S1), vec(rng, S2)
         xe = f.domain.element([S1.elem(x1), S2.elem(x2)])
         de = f.domain.element([S1.elem(d1), S2.elem(d2)])
@@ -685,6 +703,7 @@ def moreau_cases(rng, tier):
     return cs
 
 
+_LIPBAD = []      # generated objects whose finite grad_lipschitz is violated by a sampled pair, reported by probes()
 _RAISED = []      # trees on which f(x) / f.gradient(x) / f.derivative(x)(d) raised, reported by probes()
 
 
@@ -726,20 +745,57 @@ def _grad_check(f, S, x, d):
     return (ok1 and ok2), {'inner(grad,d)': gi, 'derivative(x)(d)': dv, 'fd_rel_err': err}
 
 
-def _lip_check(f, S, rng, npairs=12):
+def lip_oracle(f, sample, rng, npairs=8, iters=5):
+    """The Lipschitz clause of the property, evaluated on the implementation: whenever f.grad_lipschitz is a
+    finite L, look for a pair (x, y) with |grad f(x) - grad f(y)| > L |x - y| (1 + 1e-9) in the norm of the space.
+    Pairs: random at several scales, close pairs, and power iterations d <- grad f(x + t d) - grad f(x) (for a
+    quadratic f this converges to the top eigenvector of the Hessian).  `sample()` returns a domain element.
+    Returns (ok, detail); detail carries the worst pair."""
     L = float(f.grad_lipschitz)
     if not math.isfinite(L):
         return True, {'L': repr(L)}
-    worst = 0.0
-    for i in range(npairs):
-        scale = [1.0, 1.0, 0.05, 10.0][i % 4]
-        y = S.elem([scale * t for t in vec(rng, S)])
-        z = y + S.elem([0.01 * t for t in vec(rng, S)]) if i % 3 == 2 else S.elem([scale * t for t in vec(rng, S)])
-        den = float((y - z).norm())
-        if den == 0:
-            continue
-        worst = max(worst, float((f.gradient(y) - f.gradient(z)).norm()) / den)
-    return worst <= L * (1 + 1e-9) + 1e-12, {'L': L, 'worst_ratio': worst}
+    try:
+        G = f.gradient
+    except NotImplementedError:
+        return True, {'L': L, 'note': 'no gradient implemented'}
+    worst = [0.0, None]
+
+    def look(x, y):
+        den = float((x - y).norm())
+        if not (den > 0 and math.isfinite(den)):
+            return None
+        g = G(x) - G(y)
+        r = float(g.norm()) / den
+        if math.isfinite(r) and r > worst[0]:
+            worst[0], worst[1] = r, (x, y)
+        return g
+
+    with np.errstate(all='ignore'):
+        for i in range(npairs):
+            sc = [1.0, 0.05, 10.0, 1.0][i % 4]
+            x = sc * sample()
+            y = x + 0.01 * sample() if i % 3 == 2 else sc * sample()
+            look(x, y)
+        for t in (1.0, 1e-3):
+            x = sample()
+            d = sample() - sample()
+            for _ in range(iters):
+                n = float(d.norm())
+                if not (n > 0 and math.isfinite(n)):
+                    break
+                g = look(x + (t / n) * d, x)
+                if g is None:
+                    break
+                d = g
+    ok = worst[0] <= L * (1 + 1e-9) + 1e-12
+    det = {'L': L, 'worst_ratio': worst[0]}
+    if not ok:
+        det['x'], det['y'] = repr(worst[1][0]), repr(worst[1][1])
+    return ok, det
+
+
+def _lip_check(f, S, rng, npairs=12):
+    return lip_oracle(f, lambda: S.elem(vec(rng, S)), rng, npairs=max(8, npairs))
 
 
 def _pos_vec(rng, S, lo=0.3, hi=3.0):
@@ -873,6 +929,73 @@ def _run_probe(name, rng, odl, F):
             ok, key, det = False, 'tree-raises-%s' % top, {'raised': '%s: %s' % (type(e).__name__, str(e)[:200])}
         det.update({'tree': node.desc, 'x': x, 'd': d, 'space': repr(S.sp)})
         return ok, key, 'random tree (top %s) on %s: gradient vs directional derivative; Lipschitz ratio' % (top, sk), det
+    if kind == 'nary':
+        # n-ary constructors under EVERY permutation of their arguments, with nan / finite / inf constants in
+        # every position: whenever the advertised constant is finite it must bound the gradient differences
+        import itertools
+        ctor, n = arg.split('/')
+        n = int(n)
+
+        def leafpool(S):
+            big = rng.choice([6.0, 8.0])
+            pool = [('L2NormSquared', F.L2NormSquared(S.sp)),
+                    ('5*L2NormSquared', 5 * F.L2NormSquared(S.sp)),
+                    ('QuadraticForm(%g*I)' % big, F.QuadraticForm(operator=odl.ScalingOperator(S.sp, big))),   # nan, true 2*big
+                    ('QuadraticForm(M*.)', F.QuadraticForm(operator=odl.MultiplyOperator(S.elem(vec(rng, S, lo=4, hi=9))))),
+                    ('Constant', F.ConstantFunctional(S.sp, dy(rng))),
+                    ('L1Norm', F.L1Norm(S.sp))]
+            if not S.is_pspace:
+                pool.append(('Huber', F.Huber(S.sp, rng.choice([0.5, 2.0]))))
+            finf = F.L2NormSquared(S.sp)
+            finf.grad_lipschitz = float('inf')         # an honest "no finite bound known"
+            pool.append(('L2NormSquared[inf]', finf))
+            return pool
+
+        if ctor == 'sepsum':
+            spaces = [make_space(rng, rng.choice(['rn', 'rn_cw', 'rn_aw', 'discr', 'pspace_w'])) for _ in range(n)]
+        else:
+            S0 = make_space(rng, rng.choice(['rn', 'rn_cw', 'rn_aw', 'discr', 'discr2d', 'pspace_w']))
+            spaces = [S0] * n
+        items = []
+        for i, S in enumerate(spaces):
+            pool = leafpool(S)
+            # position 0 always a nan-advertised quadratic with a large true constant, position 1 a finite one
+            pick = pool[2] if i == 0 else (pool[rng.choice([0, 1])] if i == 1 else rng.choice(pool))
+            items.append((pick[0], pick[1], S))
+        bad = []
+        perms = list(itertools.permutations(range(n)))
+        for perm in perms:
+            fs = [items[i] for i in perm]
+            names = [t[0] for t in fs]
+            if ctor == 'sepsum':
+                f = F.SeparableSum(*[t[1] for t in fs])
+                sps = [t[2] for t in fs]
+                sample = lambda: f.domain.element([S.elem(vec(rng, S)) for S in sps])
+            elif ctor == 'sum':
+                f = fs[0][1]
+                for t in fs[1:]:
+                    f = f + t[1]
+                sample = lambda: S0.elem(vec(rng, S0))
+            elif ctor == 'sumr':       # right-nested FunctionalSum
+                f = fs[-1][1]
+                for t in reversed(fs[:-1]):
+                    f = F.FunctionalSum(t[1], f)
+                sample = lambda: S0.elem(vec(rng, S0))
+            elif ctor == 'infconv':
+                f = F.InfimalConvolution(fs[0][1], fs[1][1])
+                L = float(f.grad_lipschitz)
+                if math.isfinite(L):
+                    bad.append({'order': names, 'L': L, 'note': 'InfimalConvolution has no gradient; a finite constant bounds nothing'})
+                continue
+            else:
+                raise ValueError(ctor)
+            ok, det = lip_oracle(f, sample, rng, npairs=6, iters=5)
+            if not ok:
+                det['order'] = names
+                bad.append(det)
+        return (not bad), 'nary-lipschitz-%s' % ctor, \
+            '%s of %d functionals under all %d argument orders (nan/finite/inf constants in every position): a finite ' \
+            'grad_lipschitz must bound |grad f(x)-grad f(y)|/|x-y|' % (ctor, n, len(perms)), {'bad': bad[:3]}
     if kind == 'chain':
         # nested argument scalings / left scalings / translations over a leaf with a finite constant
         S = make_space(rng, arg)
@@ -1074,6 +1197,10 @@ def _probe_names(rng, tier):
         for _ in range(2 if quick else 8):
             names.append('chain:%s' % sk)
             names.append('reuse:%s' % sk)
+    for ctor, ns in (('sepsum', (2, 3, 4)), ('sum', (2, 3, 4)), ('sumr', (3,)), ('infconv', (2,))):
+        for n in ns:
+            for _ in range(1 if quick else 4):
+                names.append('nary:%s/%d' % (ctor, n))
     names += ['qp-linear-flag'] * 2
     for sk in ('rn', 'rn1', 'rn_cw', 'rn_aw', 'discr', 'discr_big', 'discr2d'):
         for m in ('forward', 'central', 'backward'):
@@ -1089,12 +1216,40 @@ def _probe_names(rng, tier):
     return names
 
 
+def search(rng, broken):
+    """Called by the driver when a proof/correspondence is broken and no probe failed: look for a failing input
+    of the property itself with the Lipschitz oracle on n-ary constructors (all argument orders), chains and trees."""
+    names = []
+    for ctor, ns in (('sepsum', (2, 3, 4)), ('sum', (2, 3, 4)), ('sumr', (3,)), ('infconv', (2,))):
+        for n in ns:
+            names += ['nary:%s/%d' % (ctor, n)] * 4
+    for sk in SPACE_KINDS:
+        names += ['chain:%s' % sk] * 4 + ['tree:%s/3' % sk] * 3 + ['reuse:%s' % sk] * 2 + ['doc:%s' % sk]
+    for name in names:
+        seed = rng.getrandbits(40)
+        try:
+            ok, key, what, det = run_probe(name, seed)
+        except Exception:
+            continue
+        if not ok:
+            replay = ("import sys\nsys.path.insert(0, %r)\nfrom harness import c09\n"
+                      "ok, key, what, detail = c09.run_probe(%r, %r)\nobserved = detail\n" % (C.VERIF, name, seed))
+            return C.Probe(False, key, what, replay, det)
+    return None
+
+
 def probes(rng, tier):
     out = []
     for m in _MUTATED:
         out.append(C.Probe(False, 'call-mutates-input-%s' % m['tree'][0],
                            'f(x), f.gradient(x) or f.derivative(x)(d) modified its argument', None, m))
     del _MUTATED[:]
+    for m in _LIPBAD:
+        top = m['object'][0] if isinstance(m['object'], list) else str(m['object'])
+        out.append(C.Probe(False, 'lipschitz-violated-%s' % top,
+                           'a generated object advertises a finite grad_lipschitz that a sampled pair (x, y) violates',
+                           None, m))
+    del _LIPBAD[:]
     for m in _RAISED:
         out.append(C.Probe(False, 'call-raises-%s-%s' % (m['tree'][0], m['space']),
                            'f(x), f.gradient(x) or f.derivative(x)(d) raised on a generated tree', None, m))
